@@ -26,7 +26,7 @@ def enumerate_states(tier):
     for req in ["", "pub", "pub(crate)", "pub(super)", "pub(in crate::KEY)"]:
         for fnvis in ["", "pub", "pub(crate)"]:
             progs.append(dict(mode="fn", req=req, itemvis=fnvis))
-    for req in ["", "pub", "pub(crate)"]:
+    for req in ["", "pub", "pub(crate)", "pub(in crate::KEY)"]:
         for modvis in ["", "pub"]:
             for fnvis in ["pub", "pub(crate)"]:
                 progs.append(dict(mode="mod", req=req, itemvis=modvis, fnvis=fnvis))
@@ -134,16 +134,33 @@ def evaluate(states, report, tier):
         out = os.path.join(wd, "liblib13.rlib")
         cmd = engine.rustc_cmd(art, lp, out, "link", False, crate_type="lib") + ["--crate-name", "lib13"]
         pr = subprocess.run(cmd, cwd=wd, stdout=subprocess.PIPE, stderr=subprocess.PIPE, text=True)
+        lib_broken = None
         if pr.returncode != 0:
-            # programs that cannot even be defined (rejected by rustc for their own reasons) are reported below as compile errors
-            raise engine.MachineryError("C13 library crate does not compile: " + pr.stderr[-1500:])
+            # a program that cannot even be defined in a library crate: the same programs are compiled state by state in the
+            # in-crate batch above (where the error is attributed); here every second-crate probe is reported as undecidable
+            import json as _json
+            msgs = []
+            for line in pr.stderr.splitlines():
+                try:
+                    d = _json.loads(line)
+                    if d.get("level") == "error":
+                        msgs.append(d.get("message", ""))
+                except ValueError:
+                    pass
+            lib_broken = "; ".join(msgs[:3]) or pr.stderr[-300:]
         ounits = []
         for s in other:
             tail = ("m::" if s["path"] == "inner" else "") + target_name(s)
             path = "::lib13::%s::mid::def::%s" % (s["key"], tail)
             ounits.append(engine.Unit(s["key"], "mod %s { %s }" % (s["key"], probe_src(path)), None, s))
-        ores, st2 = engine.execute(ounits, feature=False, mode="check", extra_externs=[("lib13", out)])
-        report.phases.append(dict(st2, kind="second-crate probes"))
+        if lib_broken is None:
+            ores, st2 = engine.execute(ounits, feature=False, mode="check", extra_externs=[("lib13", out)])
+            report.phases.append(dict(st2, kind="second-crate probes"))
+        else:
+            for u_ in ounits:
+                r_ = engine.Res()
+                r_.errors.append(dict(code="lib", message="the library crate holding every program does not compile: " + lib_broken, rendered=""))
+                ores[u_.key] = r_
         units += ounits
     results.update(ores)
     reqs, keys = [], []
